@@ -367,7 +367,15 @@ def c09_jobs(tier):
             for (afl, ideq) in [(0, 1), (0, 0), (A_IAE, 0), (A_POCMA, 0), (A_POCS, 0), (A_POCMA | A_POCS, 1)]:
                 cs = SAME_CELLS if op in ('move_assign', 'swap', 'nm_swap') else SAME_CELLS + CROSS_CELLS
                 for (na, nb, ca, cb) in cs:
-                    js.append(two_job(op, el, na, nb, ca, cb, afl=afl, ideq=ideq))
+                    elementwise_swap = op in ('swap', 'nm_swap') and ideq == 0 and not (afl & (A_IAE | A_POCS)) and (ca == na or cb == nb)
+                    if ca == na and cb == nb and na != nb and ca > 0 and cb > 0 and op == 'assign_move':
+                        # both inline with different inline capacities, instrumented elements: sizes pinned, all pairs (measured: > 10 GB with free sizes)
+                        for sa in range(0, ca + 1):
+                            for sb in range(0, cb + 1): js.append(two_job(op, el, na, nb, ca, cb, afl=afl, ideq=ideq, sizea=sa, sizeb=sb))
+                    elif elementwise_swap and ca > 0:
+                        for sa in range(0, ca + 1): js.append(two_job(op, el, na, nb, ca, cb, afl=afl, ideq=ideq, sizea=sa))   # measured: > 10 GB with both sizes free
+                    else:
+                        js.append(two_job(op, el, na, nb, ca, cb, afl=afl, ideq=ideq))
     return _nn(js)
 REG['C09'] = Spec('C09', c09_jobs, tags=['C09'], memsafe=True, explanation=
     'Move construction / move assignment / assign(&&) / swap on an instrumented element type: whenever the documented steal condition holds (written from the property text: source heap, '
